@@ -25,6 +25,30 @@ package ipam
 //@   ensures res1 == nil ==> len(res0) <= num
 //@   loop 1 invariant len(ips) <= num
 
+//@ -- The reservation filter is built once per request and consulted for every block the request examines:
+//@ -- consulting it must not change it (or anything else allocated before the call).
+//@ func (cidrSliceFilter).MatchesWholeCIDR
+//@   property C20
+//@   option safety off
+//@   requires candidateCIDR != nil
+//@   assigns nothing
+//@   loop 1 invariant -1 <= rangeindex && rangeindex < len(c) && (cidrsOverlappingCandidate == nil || fresh(cidrsOverlappingCandidate))
+//@ func (cidrSliceFilter).MatchesIP
+//@   property C20
+//@   option safety off
+//@   assigns nothing
+//@   loop 1 invariant -1 <= rangeindex && rangeindex < len(c)
+//@ func (cidrSliceFilter).MatchesSome
+//@   property C20
+//@   option safety off
+//@   requires ip != nil
+//@   assigns nothing
+//@   loop 1 invariant -1 <= rangeindex && rangeindex < len(c)
+//@ -- assumed: sorts and compacts the receiver's backing array in place, touching nothing else
+//@ func (cidrSliceFilter).filterDupesAndGetNumCoveredIPs
+//@   trusted
+//@   assigns c[*]
+
 //@ -- ---------------------------------------------------------------- C21: release
 //@ -- A release request that fails (unknown address, stale sequence number, handle mismatch) fails wholesale:
 //@ -- the block is not touched - and a request carrying a sequence number that differs from the stored one does
